@@ -145,8 +145,8 @@ func replayMain(args []string) {
 						Bytes []interface{}          `json:"bytes"`
 					}
 					json.Unmarshal(line, &rq)
-					if rq.Mode == "compile" {
-						ev := M{"id": rq.ID, "ev": "Lex", "fam": rq.Fam, "bytes": rq.Bytes, "toks": []interface{}{}, "out": M{"o": fail}}
+					if rq.Mode == "compile" || rq.Mode == "denote" {
+						ev := M{"id": rq.ID, "ev": map[string]string{"compile": "Lex", "denote": "Denote"}[rq.Mode], "fam": rq.Fam, "bytes": rq.Bytes, "toks": []interface{}{}, "out": M{"o": fail}}
 						b, _ = json.Marshal(ev)
 						b = append(b, '\n')
 						results <- b
